@@ -2346,7 +2346,13 @@ class HedgeRisks(Algo):
             i = d.index.get_loc(target.now)
             data.append((i, d))
 
-        hedge_risk = np.array([[_get_unit_risk(s, d, i) for (i, d) in data] for s in securities])
+        # risk per unit of notional transacted scales with the multiplier of
+        # the hedge instrument (as in UpdateRisk)
+        def _multiplier(name):
+            child = target.children.get(name, target._lazy_children.get(name))
+            return child.multiplier if child is not None else 1.0
+
+        hedge_risk = np.array([[_get_unit_risk(s, d, i) * _multiplier(s) for (i, d) in data] for s in securities])
 
         # Get hedge ratios
         if self.pseudo:
